@@ -1,0 +1,35 @@
+//go:build verif
+
+// Contracts for zone transfers (xfr.go).  Comment-only file.  The envelope channel and the goroutine that
+// feeds it are outside per-function contracts; what is stated here are the decisions taken inside one
+// activation of the reader on the message it just read.
+
+package dns
+
+//@ func isSOAFirst [C15]
+//@   opt no-safety
+//@   requires in != nil
+//@   ensures def: ret0 ==> len(in.Answer) > 0 && hdr(in.Answer[0]).Rrtype == 6
+//@   pure
+//@ func isSOALast [C15]
+//@   opt no-safety
+//@   requires in != nil
+//@   ensures def: ret0 ==> len(in.Answer) > 0 && hdr(in.Answer[len(in.Answer)-1]).Rrtype == 6
+//@   pure
+
+// every envelope is verified whenever a TSIG provider is configured: success implies the verification of
+// this very envelope returned nil
+//@ func (*Transfer).ReadMsg [C15]
+//@   opt no-safety
+//@   requires t != nil
+//@   exit verified: ret1 == nil && ret0 != nil && callres("tsigProvider") != nil ==> called("TsigVerifyWithProvider") && callres("TsigVerifyWithProvider") == nil
+//@   exit some: ret1 == nil ==> ret0 != nil
+
+// AXFR reader: records are handed on only from a message with the query's ID; the first message must have
+// RCODE 0 and start with an SOA; the transfer ends at (and only at) a later message that ends with an SOA
+//@ func (*Transfer).inAxfr [C15]
+//@   opt no-safety
+//@   requires t != nil && q != nil
+//@   assert at "c <- &Envelope{in.Answer, nil}@1" first: q.Id == in.Id && in.Rcode == 0 && callres("isSOAFirst") && len(in.Answer) == 1
+//@   assert at "c <- &Envelope{in.Answer, nil}@2" last: q.Id == in.Id && callres("isSOALast") && !first
+//@   assert at "c <- &Envelope{in.Answer, nil}@3" more: q.Id == in.Id && !callres("isSOALast") && !first
